@@ -76,7 +76,9 @@ Fixpoint read_exact_tokio (fuel : nat) (r : reader) (len : N) (acc : bytes) : re
          | (Panic, r') => (Panic, r')
          end
   end.
-(* take(len).read_to_end: read until `len` bytes or EOF; Interrupted is retried by read_to_end *)
+(* take(len).read_to_end: read until `len` bytes or EOF.  tokio's read_to_end (unlike std's) does not
+   retry: every error of the transport, Interrupted included, is returned (tokio 1.36 read_to_end.rs:
+   `Err(err) => return Poll::Ready(Err(err))`) *)
 Fixpoint take_read_to_end (fuel : nat) (r : reader) (len : N) (acc : bytes) : res io_kind bytes * reader :=
   match fuel with
   | O => (Panic, r)
@@ -85,7 +87,6 @@ Fixpoint take_read_to_end (fuel : nat) (r : reader) (len : N) (acc : bytes) : re
     else match rd_read r len with
          | (Ok got, r') => if blen HO got =? 0 then (Ok acc, r')
                            else take_read_to_end f r' (len - blen HO got) (acc ++ got)
-         | (Err KInterrupted, r') => take_read_to_end f r' len acc
          | (Err k, r') => (Err k, r')
          | (Panic, r') => (Panic, r')
          end
